@@ -104,6 +104,7 @@ func DAGMutex.registerMutex
 func DAGMutex.unregisterMutex
   instantiate T: string
   opt sequential
+  opt panic-unchanged                         -- a misuse panics instead of corrupting the registry
   panics-iff !has(d.consumerCounter.m, id)
   requires d != nil && inv(d) && unlocked(d.consumerCounter.mutex) && unlocked(d.mutexes.mutex)
   modifies d.consumerCounter.m, d.consumerCounter.deletedKeys, d.mutexes.m, d.mutexes.deletedKeys, allmaps(d.consumerCounter.m), allmaps(d.mutexes.m)
